@@ -82,6 +82,27 @@ Theorem C15_tick_always_enabled : forall depsort evs,
 Proof. exact tick_always_enabled. Qed.
 Print Assumptions C15_tick_always_enabled.
 
+(* The block subscription being cancelled from outside while the Broadcaster
+   runs (its channel closed, SubscribeBlocks failing from then on) changes
+   nothing: the event is the identity on the state, invisible to the monitor,
+   and a history containing it ends in the same state and gives every other
+   operation the same observation as the history without it.  (After it the
+   environment can deliver no block; ticks, Broadcast, MarkAsConfirmed, the
+   worker and Stop go on as before.) *)
+Theorem C15_subscription_cancel_is_identity : forall depsort deps s m,
+  step depsort s ESubCancel = (s, ONone) /\ m_step deps m (ESubCancel, ONone) = m.
+Proof. exact sub_cancel_is_identity. Qed.
+Print Assumptions C15_subscription_cancel_is_identity.
+
+Theorem C15_subscription_cancel_is_silent : forall depsort evs1 evs2,
+  run depsort (evs1 ++ ESubCancel :: evs2) = run depsort (evs1 ++ evs2) /\
+  snd (run_from depsort init (evs1 ++ ESubCancel :: evs2)) =
+    snd (run_from depsort init evs1) ++ ONone :: snd (run_from depsort (run depsort evs1) evs2) /\
+  snd (run_from depsort init (evs1 ++ evs2)) =
+    snd (run_from depsort init evs1) ++ snd (run_from depsort (run depsort evs1) evs2).
+Proof. exact sub_cancel_silent. Qed.
+Print Assumptions C15_subscription_cancel_is_silent.
+
 (* The monitor evaluated on implementation traces accepts every trace of the
    model: return values (nil exactly for accepted / in-mempool, the mapped
    error otherwise, ErrBroadcasterStopped after Stop), one worker call in
